@@ -35,7 +35,9 @@ def srcValidate : ValidateFacts :=
   { rejectsTrailingSegment := FactsC15.validateRejectsTrailingSegment
     checkerPerMapping := FactsC15.checkerPerMapping
     streamCheckerKeepsChunkType := FactsC15.streamCheckerKeepsChunkType
-    ifaceCheckerGuardsNil := FactsC15.ifaceCheckerGuardsNil }
+    ifaceCheckerGuardsNil := FactsC15.ifaceCheckerGuardsNil
+    lastSegmentBelowIfaceIsIntermediate := FactsC15.lastSegmentBelowIfaceIsIntermediate
+    derefsOnePointerLevel := FactsC15.derefsOnePointerLevel }
 
 /-! ## property theorems (instantiated with the facts regenerated from /repo) -/
 
@@ -460,12 +462,12 @@ theorem path_through_pointer_to_map_rejected (el pt st : FTy) (s : Seg) (r src d
     validateOne srcValidate pt (.ptr (.map el)) ⟨src, s :: r⟩ = none := by
   rw [facts_match.2.2]
   have h1 : extractTy true (.ptr (.map el)) (s :: r) = none := by
-    simp only [extractTy, structOf]; by_cases hr : r.isEmpty = true <;> simp [hr]
+    simp only [extractTy, structOf, isIface]; by_cases hr : r.isEmpty = true <;> simp [hr]
   have h2 : extractTy true (.ptr (.ptr (.map el))) (s :: r) = none := by
-    simp only [extractTy, structOf]; by_cases hr : r.isEmpty = true <;> simp [hr]
+    simp only [extractTy, structOf, isIface]; by_cases hr : r.isEmpty = true <;> simp [hr]
   refine ⟨h1, h2, ?_, ?_⟩
-  · simp [validateOne, Expected.C15.validate, h1]
-  · simp only [validateOne, Expected.C15.validate, h1]
+  · simp [validateOne, extractTyF_expected, h1]
+  · simp only [validateOne, extractTyF_expected, h1]
     cases extractTy true pt src <;> rfl
 
 /-- … and what a run does when the static check lets such a path through (pointers dereferenced
@@ -549,7 +551,8 @@ theorem nil_kinds_match : FactsC15.nilKindsAreMapSlicePtrInterface = true := by 
 
 /-- the model's `nilable` is that list -/
 theorem nilable_iff (t : FTy) :
-    nilable t = true ↔ t = .any ∨ (∃ e, t = .ptr e) ∨ (∃ e, t = .map e) ∨ (∃ n, t = .opq .slice n) := by
+    nilable t = true ↔ t = .any ∨ (∃ e, t = .ptr e) ∨ (∃ e, t = .map e) ∨ (∃ n, t = .opq .slice n) ∨
+      (∃ n is, t = .iface n is) := by
   cases t with
   | opq k n => cases k <;> simp [nilable]
   | _ => simp [nilable]
@@ -588,7 +591,7 @@ theorem nil_behind_interface (allowMissing : Bool) (st pt : FTy) (v : FVal) (m :
       · simp [runNode, edgesMap, hfm, hpan, checkE, hck, runtimeCheck, hn, convertTo, convertFrom, ha]
       · obtain ⟨st', w', h1, h2, h3⟩ := assign_getT_same m.dst st (newInstance st) w none ha
         have hslot : slotTy st m.dst = some sf := by
-          simp only [validateOne, Expected.C15.validate] at hv
+          simp only [validateOne, extractTyF_expected] at hv
           cases hp : extractTy true pt m.src with
           | none => simp [hp] at hv
           | some pfi =>
@@ -598,11 +601,11 @@ theorem nil_behind_interface (allowMissing : Bool) (st pt : FTy) (v : FVal) (m :
               obtain ⟨sf', sI⟩ := sfi
               obtain ⟨pf, pI⟩ := pfi
               simp only [hp, hs] at hv
-              have := extractTy_slotTy _ _ _ _ hs
               by_cases hsI : sI = true
               · simp only [hsI, if_true] at hv
                 by_cases hsf : sf' = .any <;> simp [hsf] at hv
-              · simp only [hsI, if_false, Bool.false_eq_true] at hv
+              · have := extractTy_slotTy _ _ _ _ hs (fun h => absurd h hsI)
+                simp only [hsI, if_false, Bool.false_eq_true] at hv
                 by_cases hpI : pI = true
                 · simp only [hpI, if_true, Option.some.injEq, Prod.mk.injEq, and_true] at hv
                   rw [← hv]; exact this
@@ -711,6 +714,141 @@ theorem chain_twins_disagree_if_stream_returns_early :
     (assembleStaticStream Expected.C15.chainStreamReturnsEarly exReq exStatic [.entries exMapped]).map concatIn
       = .ok (.entries (exMapped ++ exStatic)) ∧
     assembleStatic Expected.C15.chainStreamReturnsEarly exReq exStatic exMapped = .ok (.val exAssembled) := by
+  decide
+
+/-! ## non-empty interfaces and pointers to pointers on source and target paths
+
+  `R fmt.Stringer`, `PP **Inner`.  What the property demands: what lies below a non-empty interface
+  is known only at request time — a SOURCE path may go on below it (the run-time checker against
+  the target slot decides: the value arrives or the run is an error, never a panic), a TARGET path
+  may not (nothing can be instantiated there, unlike the `any` hole that is expanded to a
+  `map[string]any`): compilation rejects it.  Extraction and assignment follow one pointer level;
+  no path, source or target, goes through a pointer to a pointer: compilation rejects it. -/
+
+/-- **path_through_nested_pointer_rejected.** A path that reaches a slot of a pointer-to-pointer type
+    (whatever it points to, at any depth, without crossing an interface before) and goes on below
+    it is rejected by the static check, as a source path and as a target path: no accepted mapping
+    set contains one. -/
+theorem path_through_nested_pointer_rejected (pt st t u : FTy) (p : Path) (s : Seg) (r other : Path)
+    (hp : extractTy true t p = some (.ptr (.ptr u), false)) :
+    extractTy true t (p ++ s :: r) = none ∧
+    validateOne srcValidate t st ⟨p ++ s :: r, other⟩ = none ∧
+    validateOne srcValidate pt t ⟨other, p ++ s :: r⟩ = none := by
+  rw [facts_match.2.2]
+  have h1 : extractTy true t (p ++ s :: r) = none := by
+    rw [extractTy_append p t _ (s :: r) hp (by simp)]
+    simp only [extractTy, structOf, isIface]; by_cases hr : r.isEmpty = true <;> simp [hr]
+  refine ⟨h1, ?_, ?_⟩
+  · simp [validateOne, extractTyF_expected, h1]
+  · simp only [validateOne, extractTyF_expected, h1]
+    cases extractTy true pt other <;> rfl
+
+/-- **target_below_interface_rejected.** A target path that goes on below a slot of a non-empty
+    interface type is rejected at compile time, whatever the source. -/
+theorem target_below_interface_rejected (pt st : FTy) (n : String) (is : List String) (p : Path) (s : Seg)
+    (r src : Path) (hp : extractTy true st p = some (.iface n is, false)) :
+    validateOne srcValidate pt st ⟨src, p ++ s :: r⟩ = none := by
+  rw [facts_match.2.2]
+  have h1 : extractTy true st (p ++ s :: r) = some (.iface n is, true) := by
+    rw [extractTy_append p st _ (s :: r) hp (by simp)]
+    simp only [extractTy, structOf, isIface]; by_cases hr : r.isEmpty = true <;> simp [hr]
+  simp only [validateOne, extractTyF_expected, h1]
+  cases extractTy true pt src with
+  | none => rfl
+  | some x => simp
+
+/-- **source_below_interface_checked.** A source path that goes on below a slot of a non-empty
+    interface type (one segment or more) is accepted for every target slot the static check can
+    type, and gets the run-time checker against that slot's type: by `runtime_check_no_panic` the
+    run then delivers the value found or is an ordinary error. -/
+theorem source_below_interface_checked (pt st : FTy) (n : String) (is : List String) (p : Path) (s : Seg)
+    (r dst : Path) (sf : FTy) (hp : extractTy true pt p = some (.iface n is, false))
+    (hd : extractTy true st dst = some (sf, false)) :
+    validateOne srcValidate pt st ⟨p ++ s :: r, dst⟩ = some (some (sf, true)) := by
+  rw [facts_match.2.2]
+  have h1 : extractTy true pt (p ++ s :: r) = some (.iface n is, true) := by
+    rw [extractTy_append p pt _ (s :: r) hp (by simp)]
+    simp only [extractTy, structOf, isIface]; by_cases hr : r.isEmpty = true <;> simp [hr]
+  simp [validateOne, extractTyF_expected, h1, hd]
+
+/-- `struct Impl{X string; N int}` (`*Impl` implements `Namer`), `struct Deep{S string; R Namer; PP **Leaf; A any}` -/
+def exImpl : FTy := .struct "Impl" (.cons "X" .str (.cons "N" .int .nil))
+def exNamer : FTy := .iface "Namer" ["*Impl"]
+def exDeep : FTy := .struct "Deep"
+  (.cons "S" .str (.cons "R" exNamer (.cons "PP" (.ptr (.ptr exLeaf)) (.cons "A" .any .nil))))
+/-- `Deep{S: "s", R: &Impl{X: "rx", N: 3}, PP: &&Leaf{"pl", 2}}` -/
+def exDeepV : FVal := .obj (.cons "S" (.str "s")
+  (.cons "R" (.box (.ptr exImpl) (.ptr (.obj (.cons "X" (.str "rx") (.cons "N" (.int 3) .nil)))))
+  (.cons "PP" (.ptr (.ptr (exLeafV "pl" 2))) (.cons "A" .nil .nil))))
+
+/-- the hypotheses of the three theorems are satisfiable, and this is what a run does: `R.X` out
+    of `&Impl{X: "rx"}` arrives in a string slot and in an `any` slot, is an error for the
+    `Namer`-typed slot (a string does not implement it) and for an int slot; `R.N.y` and a nil `R`
+    are errors; the whole `R` moves to `R` and to `A`; `*Impl` as the whole input moves to `R` -/
+example :
+    extractTy true exDeep ["R"] = some (exNamer, false) ∧
+    extractTy true exDeep ["PP"] = some (.ptr (.ptr exLeaf), false) ∧
+    validateOne Expected.C15.validate exDeep exDeep ⟨["R", "X"], ["S"]⟩ = some (some (.str, true)) ∧
+    runNode Expected.C15.take Expected.C15.validate false exDeep [{ pt := exDeep, v := exDeepV, ms := [⟨["R", "X"], ["S"]⟩] }]
+      = .ok (.obj (.cons "S" (.str "rx") (.cons "R" .nil (.cons "PP" .nil (.cons "A" .nil .nil))))) ∧
+    runNode Expected.C15.take Expected.C15.validate true exDeep [{ pt := exDeep, v := exDeepV, ms := [⟨["R", "X"], ["A"]⟩] }]
+      = .ok (.obj (.cons "S" (.str "") (.cons "R" .nil (.cons "PP" .nil (.cons "A" (.box .str (.str "rx")) .nil))))) ∧
+    runNode Expected.C15.take Expected.C15.validate false exDeep [{ pt := exDeep, v := exDeepV, ms := [⟨["R", "X"], ["R"]⟩] }]
+      = .error .request ∧
+    runNode Expected.C15.take Expected.C15.validate false exLeaf [{ pt := exDeep, v := exDeepV, ms := [⟨["R", "X"], ["N"]⟩] }]
+      = .error .request ∧
+    runNode Expected.C15.take Expected.C15.validate false exDeep [{ pt := exDeep, v := exDeepV, ms := [⟨["R", "N", "y"], ["S"]⟩] }]
+      = .error .request ∧
+    runNode Expected.C15.take Expected.C15.validate false exDeep [{ pt := exDeep, v := newInstance exDeep, ms := [⟨["R", "X"], ["S"]⟩] }]
+      = .error .request ∧
+    validateOne Expected.C15.validate exDeep exDeep ⟨["R"], ["R"]⟩ = some none ∧
+    runNode Expected.C15.take Expected.C15.validate false exDeep [{ pt := exDeep, v := exDeepV, ms := [⟨["R"], ["R"]⟩, ⟨["R"], ["A"]⟩] }]
+      = .ok (.obj (.cons "S" (.str "") (.cons "R" (.box (.ptr exImpl) (.ptr (.obj (.cons "X" (.str "rx") (.cons "N" (.int 3) .nil)))))
+          (.cons "PP" .nil (.cons "A" (.box (.ptr exImpl) (.ptr (.obj (.cons "X" (.str "rx") (.cons "N" (.int 3) .nil))))) .nil))))) ∧
+    validateOne Expected.C15.validate (.ptr exImpl) exDeep ⟨[], ["R"]⟩ = some none ∧
+    validateOne Expected.C15.validate exImpl exDeep ⟨[], ["R"]⟩ = none ∧
+    validateOne Expected.C15.validate exDeep exDeep ⟨["R"], ["R", "x"]⟩ = none ∧
+    validateOne Expected.C15.validate exDeep exDeep ⟨["S"], ["PP", "S"]⟩ = none ∧
+    validateOne Expected.C15.validate exDeep exDeep ⟨["PP", "S"], ["S"]⟩ = none ∧
+    validateOne Expected.C15.validate exDeep exDeep ⟨["PP"], ["PP"]⟩ = some none := by
+  decide
+
+/-- The static check as found took a LAST segment below a non-empty interface for a slot of the
+    interface's own type: (target) `R → R.x` is accepted and the assignment cannot succeed
+    ("convertTo failed when must succeed … output is not a struct", a panic out of Invoke and
+    Stream); (source) `R.X → R` is accepted without a run-time checker and the string found panics
+    in `convertTo`, `R.X → S` is refused although the value found is a string.  With the segment
+    reported as an intermediate interface the first is rejected at compile time, the second is an
+    ordinary error, the third delivers the value (replayed on the real code by the fixed cases of
+    the family `deep`). -/
+theorem iface_last_segment_as_found :
+    (validateOne Expected.C15.validateIfaceLastLoose exDeep exDeep ⟨["R"], ["R", "x"]⟩).isSome = true ∧
+    assign exDeep (newInstance exDeep) ["R", "x"] (some (.ptr exImpl, .ptr (.obj .nil))) = none ∧
+    runNode Expected.C15.take Expected.C15.validateIfaceLastLoose false exDeep
+      [{ pt := exDeep, v := exDeepV, ms := [⟨["R"], ["R", "x"]⟩] }] = .error .panic ∧
+    (validateOne Expected.C15.validate exDeep exDeep ⟨["R"], ["R", "x"]⟩).isSome = false ∧
+    validateOne Expected.C15.validateIfaceLastLoose exDeep exDeep ⟨["R", "X"], ["R"]⟩ = some none ∧
+    runNode Expected.C15.take Expected.C15.validateIfaceLastLoose false exDeep
+      [{ pt := exDeep, v := exDeepV, ms := [⟨["R", "X"], ["R"]⟩] }] = .error .panic ∧
+    runNode Expected.C15.take Expected.C15.validate false exDeep
+      [{ pt := exDeep, v := exDeepV, ms := [⟨["R", "X"], ["R"]⟩] }] = .error .request ∧
+    validateOne Expected.C15.validateIfaceLastLoose exDeep exDeep ⟨["R", "X"], ["S"]⟩ = none ∧
+    validateOne Expected.C15.validate exDeep exDeep ⟨["R", "X"], ["S"]⟩ = some (some (.str, true)) := by
+  decide
+
+/-- The static check as found removed every pointer level in front of a struct: `S → PP.S`
+    (target through `**Leaf`) is accepted and the assignment cannot succeed ("… it's a nested
+    pointer", a panic out of Invoke and Stream); `PP.S → S` (source) is accepted and every run is an
+    error although the value is there.  With one level followed both are rejected at compile time. -/
+theorem nested_pointer_accepted_as_found :
+    (validateOne Expected.C15.validateDerefsAll exDeep exDeep ⟨["S"], ["PP", "S"]⟩).isSome = true ∧
+    assign exDeep (newInstance exDeep) ["PP", "S"] (some (.str, .str "a")) = none ∧
+    runNode Expected.C15.take Expected.C15.validateDerefsAll false exDeep
+      [{ pt := exDeep, v := exDeepV, ms := [⟨["S"], ["PP", "S"]⟩] }] = .error .panic ∧
+    (validateOne Expected.C15.validateDerefsAll exDeep exDeep ⟨["PP", "S"], ["S"]⟩).isSome = true ∧
+    take Expected.C15.take exDeep exDeepV ["PP", "S"] = .error .bad ∧
+    (validateOne Expected.C15.validate exDeep exDeep ⟨["S"], ["PP", "S"]⟩).isSome = false ∧
+    (validateOne Expected.C15.validate exDeep exDeep ⟨["PP", "S"], ["S"]⟩).isSome = false := by
   decide
 
 end EinoV.C15
